@@ -51,13 +51,42 @@ def run_c05(tier, seed):
                 for x in v["viol"]:
                     r = json.loads(lines[off + x["tid"] - 1])
                     viol.append({"prop": "C05", "code": x["code"], "case": r, "tid": off + x["tid"]})
+        # end to end: the slot the proxy actually routes by is the key's slot.  Multi-key and single-key requests on tagged
+        # keys, one per read, alternating between slots whose tags have the same length (so that successive requests have
+        # the same byte layout), from alternating clients; every first transmission must arrive at the slot's master
+        import random
+        rng = random.Random("c05e2e/%s" % seed)
+        st = lambda **kw: dict({"op": "", "c": "", "n": "", "reqs": [], "hex": "", "kind": "", "cls": "", "to": "", "count": 0, "src": "", "text": "", "cuts": []}, **kw)
+        e2e = []
+        for k in range(12 if q else 200):
+            steps = []
+            for j in range(rng.randint(4, 9)):
+                sl = rng.choice(["A", "B", "C", "A2", "B2", "C2"])
+                kind = rng.choice(["mget", "del", "mset", "get", "mget"])
+                nk = 1 if kind == "get" else rng.choice([1, 2, 2, 3])
+                slots = [sl + "~" if k % 4 == 3 and rng.random() < 0.5 else sl for _ in range(nk)]
+                steps.append({"stim": [st(op="send", c=rng.choice(["c1", "c2"]), reqs=[{"k": kind, "slots": slots, "args": [], "dups": [-1] * nk}])], "settle": True, "noIter": False})
+                if rng.random() < 0.7:
+                    steps.append({"stim": [st(op="answer", n=n, kind="ok", count=3) for n in ("n1", "n2", "n3")], "settle": True, "noIter": False})
+            steps.append({"stim": [st(op="answer", n=n, kind="ok", count=12) for n in ("n1", "n2", "n3")], "settle": True, "noIter": False})
+            e2e.append({"id": "c05-e2e-%d" % k, "role": "", "steps": steps})
+        r = common.replay_and_validate({"masters": 3, "mode": "step"}, e2e, wd, "c05e2e", par=8)
+        states += r["states"]
+        trans += r["transitions"]
+        other = {}
+        for v in r["viol"]:
+            if v["prop"] == "DEAD" or (v["prop"] == "C04" and v["code"] == "request-at-wrong-node"):
+                viol.append(dict(v, prop="C05" if v["prop"] == "C04" else v["prop"], code="routed-by-a-slot-that-is-not-the-key's:" + v["code"], case={"key": []}))
+            else:
+                other[v["prop"] + ":" + v["code"]] = other.get(v["prop"] + ":" + v["code"], 0) + 1
         keys = [json.loads(l)["key"] for l in lines]
         nontriv = sum(1 for k in keys if 123 in k or 125 in k)
         cov = {"states": states, "transitions": trans, "traces": len(lines), "nontrivial": nontriv,
                "rule": "every key over {'{','}','a','b',0x00,0xff} up to length %d plus random binary / brace-structured keys; "
                        "non-trivial = contains a brace; each record is one call of hashkit.Hash checked by TLC against KeySlot!Slot"
                        % (4 if q else 6),
-               "samples": [json.loads(l) for l in lines[40:43]] + [json.loads(lines[-1])], "exhaustive_part_maxlen": 4 if q else 6}
+               "samples": [json.loads(l) for l in lines[40:43]] + [json.loads(lines[-1])], "exhaustive_part_maxlen": 4 if q else 6,
+               "end_to_end_scenarios": len(e2e), "other": other, "harness_errors": r["harness_errors"]}
         return viol, cov
     finally:
         shutil.rmtree(wd, ignore_errors=True)
@@ -182,6 +211,13 @@ def run(pid, tier, seed):
 
 
 def replay(pid, payload):
+    if pid == "C05" and payload.get("scenario"):
+        wd = common.scratch()
+        try:
+            r = common.replay_and_validate(payload["cfg"], [payload["scenario"]], wd, "replay", par=1)
+            return [dict(v, prop="C05") for v in r["viol"] if v["prop"] == "DEAD" or (v["prop"] == "C04" and v["code"] == "request-at-wrong-node")]
+        finally:
+            shutil.rmtree(wd, ignore_errors=True)
     if pid == "C05":
         wd = common.scratch()
         try:
